@@ -124,7 +124,7 @@ def run_framer(data, kind, rsize, skip, chooser=None, max_items=None, via="ccsds
     _verif.sink = sink
     try:
         kw = dict(buffer_read_size_bytes=None if rsize == 0 else rsize, skip_header_bytes=skip)
-        if via == "ccsds":
+        if isinstance(via, str) and via == "ccsds":
             gen = packets.ccsds_generator(src, **kw)
         else:
             kw.update(gen_kwargs or {})
@@ -132,7 +132,13 @@ def run_framer(data, kind, rsize, skip, chooser=None, max_items=None, via="ccsds
         try:
             for p in gen:
                 items.append(p)
-                log.append(_ev("yield", idx=len(items), n=len(p) if isinstance(p, bytes) else len(p.raw_data)))
+                if isinstance(p, bytes):
+                    n_ = len(p)
+                elif hasattr(p, "raw_data"):
+                    n_ = len(p.raw_data)
+                else:                       # an UnrecognizedPacketTypeError object carrying partial data
+                    n_ = len(p.partial_data.raw_data) if getattr(p, "partial_data", None) is not None else 0
+                log.append(_ev("yield", idx=len(items), n=n_))
                 if max_items is not None and len(items) > max_items:
                     outcome = "abort"
                     gen.close()
